@@ -41,7 +41,14 @@ vfps::FokkerPlanckMap::FokkerPlanckMap( std::shared_ptr<PhaseSpace> in
     const interpol_t e1_6d = e1/(interpol_t(6)*in->getDelta(1));
     const interpol_t e1_d2 = e1/(in->getDelta(1)*in->getDelta(1));
 
-    const meshaxis_t ycenter = in->getAxis(1)->zerobin();
+    /* row where the one-sided stencil switches sides: kept inside the rows
+     * that have all their stencil neighbours, also if the grid is shifted
+     * so far that the zero-energy bin lies at its edge or outside
+     */
+    const meshaxis_t ycenter
+        = std::min( std::max( in->getAxis(1)->zerobin()
+                            , static_cast<meshaxis_t>(2))
+                  , static_cast<meshaxis_t>(std::max(_ysize,meshindex_t(4))-2));
 
     switch (dt) {
     case DerivationType::two_sided:
